@@ -344,7 +344,12 @@ func build(ctx context.Context, s *Stage, ins []chan int, c *calls) []output {
 	case "seq":
 		// pipe.Seq fills and closes its channel before returning; the values the driver "receives" are the
 		// elements of pipe.ToSeq over it, handed out one by one
-		ch := pipe.Seq(s.Xs...)
+		// the caller may recycle the slice it spread into the variadic parameter as soon as Seq has returned
+		args := append([]int(nil), s.Xs...)
+		ch := pipe.Seq(args...)
+		for i := range args {
+			args[i] = -1
+		}
 		capacity := cap(ch)
 		var drained []int
 		done := false
